@@ -7,6 +7,8 @@
 //!   <tid> go <site>     release it towards <site> without waiting (it will be held there)
 //!   <tid> at <site>     wait until it is held at <site>
 //!   <tid> free          let it run freely from now on
+//!   <tid> probe <site> <ms>   release it towards <site> and wait at most <ms> for it to be held there (`ok` / `timeout`): for sites a
+//!                       thread must NOT be able to reach (it stays parked) without paying the full step timeout
 //!   dispatch on|off     enable the yield point `vm.dispatch` (before every instruction of every thread)
 //!   hint                spawn a HOST thread (logical thread 7) that calls `interrupt()`; it is held at its first yield
 //!                       point (`ctl.interrupt.paused`), so `7 ctl.interrupt.state` stops it between its two stores
@@ -21,6 +23,13 @@
 //! sp.exit.park, sp.exit.retract, poll.state, poll.publish, poll.exit.load, poll.exit.park, poll.retract, stop.self,
 //! stop.thread, scan.spin, scan.begin, scan.end, resume.self, resume.thread, resume.unpark, env.drain, env.thunk,
 //! env.update_own, ctl.<op>.paused, ctl.<op>.state).
+//!
+//! HOST-SIDE scenario (first line `hostprog <program>` instead of `prog`): the program is run first (it may leave script
+//! threads alive, e.g. servers blocked on a channel), then the lines are executed one after the other ON THE HOST THREAD:
+//!   update <name> <int>    Engine::update_value(name, int)          regval <name> <int>   Engine::register_value(name, int)
+//!   regfn <name> <int>     Engine::register_fn(name, move || int)   run <expression>      Engine::run(expression)
+//! Output: `h <k> <op> value=<text|-> <ok|error:text>` per line, then the `result` line (value = value of the last `run`).
+//! A watchdog prints `result outcome=hang …` and exits(3) after `HOST_BOUND_MS` (default 20000).
 //!
 //! stdout: one line per schedule line (`ok <tid> <site>` / `timeout <tid> <site> last=<site it is held at>`), then
 //!   result outcome=<finished|error:<text>|panic|hang> value=<text> dispatched=… stops=i/c gcs=s/f envs=s/f
@@ -176,9 +185,101 @@ fn free(tid: usize) {
     s.cv.notify_all();
 }
 
+fn clean(s: &str) -> String {
+    s.replace(['\n', ' ', '\t'], "_").chars().take(160).collect()
+}
+
+/// Host-side scenario: script threads left alive by an earlier `run`, then host calls that define / assign globals.
+fn host_scenario(prog: String, steps: Vec<String>) {
+    let bound: u64 = std::env::var("HOST_BOUND_MS").ok().and_then(|x| x.parse().ok()).unwrap_or(20000);
+    let done = Arc::new(AtomicBool::new(false));
+    {
+        let done = done.clone();
+        std::thread::spawn(move || {
+            let t0 = Instant::now();
+            while !done.load(Ordering::SeqCst) {
+                if t0.elapsed() > Duration::from_millis(bound) {
+                    emit(&format!("result outcome=hang value=- {}", counters_text()));
+                    std::process::exit(3);
+                }
+                std::thread::sleep(Duration::from_millis(5));
+            }
+        });
+    }
+    verif::reset();
+    let mut engine = Engine::new();
+    let mut last = "-".to_string();
+    let mut outcome = "finished".to_string();
+    match catch_unwind(AssertUnwindSafe(|| engine.run(prog.clone()))) {
+        Ok(Ok(_)) => emit("h 0 hostprog value=- ok"),
+        Ok(Err(e)) => {
+            emit(&format!("h 0 hostprog value=- error:{}", clean(&e.to_string())));
+            outcome = "error:hostprog".into();
+        }
+        Err(_) => {
+            emit("h 0 hostprog value=- panic");
+            outcome = "panic".into();
+        }
+    }
+    for (k, l) in steps.iter().enumerate() {
+        if outcome != "finished" {
+            break;
+        }
+        let k = k + 1;
+        let (op, rest) = match l.split_once(' ') {
+            Some(x) => x,
+            None => (l.as_str(), ""),
+        };
+        let r = catch_unwind(AssertUnwindSafe(|| -> Result<String, String> {
+            match op {
+                "update" | "regval" | "regfn" => {
+                    let (name, v) = rest.split_once(' ').ok_or("bad line")?;
+                    let v: isize = v.trim().parse().map_err(|_| "bad int")?;
+                    match op {
+                        "update" => {
+                            engine.update_value(name, steel::SteelVal::IntV(v)).ok_or("update_value: no such global")?;
+                        }
+                        "regval" => {
+                            engine.register_value(name, steel::SteelVal::IntV(v));
+                        }
+                        _ => {
+                            let name: &'static str = Box::leak(name.to_string().into_boxed_str());
+                            engine.register_fn(name, move || v);
+                        }
+                    }
+                    Ok("-".into())
+                }
+                "run" => match engine.run(rest.to_string()) {
+                    Ok(v) => Ok(v.last().map(|x| clean(&x.to_string())).unwrap_or_else(|| "-".into())),
+                    Err(e) => Err(clean(&e.to_string())),
+                },
+                _ => Err("bad-line".into()),
+            }
+        }));
+        match r {
+            Ok(Ok(v)) => {
+                if op == "run" {
+                    last = v.clone();
+                }
+                emit(&format!("h {k} {op} value={v} ok"));
+            }
+            Ok(Err(e)) => emit(&format!("h {k} {op} value=- error:{e}")),
+            Err(_) => {
+                emit(&format!("h {k} {op} value=- panic"));
+                outcome = "panic".into();
+            }
+        }
+    }
+    done.store(true, Ordering::SeqCst);
+    emit(&format!("result outcome={outcome} value={last} {}", counters_text()));
+    // script threads may still be blocked on a channel: do not wait for them
+    std::process::exit(0);
+}
+
 fn main() {
     DEBUG.store(std::env::var("C15_DEBUG").is_ok(), Ordering::Relaxed);
     let mut prog = String::new();
+    let mut host_mode = false;
     let mut sched: Vec<String> = Vec::new();
     for line in std::io::stdin().lock().lines() {
         let line = match line {
@@ -189,7 +290,10 @@ fn main() {
         if l.is_empty() || l.starts_with('#') {
             continue;
         }
-        if let Some(p) = l.strip_prefix("prog ") {
+        if let Some(p) = l.strip_prefix("hostprog ") {
+            prog = p.to_string();
+            host_mode = true;
+        } else if let Some(p) = l.strip_prefix("prog ") {
             prog = p.to_string();
         } else {
             sched.push(l.to_string());
@@ -200,6 +304,10 @@ fn main() {
         PANICS.fetch_add(1, Ordering::SeqCst);
         prev(info);
     }));
+    if host_mode {
+        host_scenario(prog, sched);
+        return;
+    }
     let mut engine = Engine::new();
     engine.register_fn("c15-id!", set_id);
     engine.register_fn("c15-mark!", mark);
@@ -290,6 +398,14 @@ fn main() {
                             emit(&format!("ok {tid} at {site}"));
                         } else {
                             emit(&format!("timeout {tid} at {site} last={h}"));
+                        }
+                    }
+                    [tid, "probe", site, ms] => {
+                        let t: usize = tid.parse().unwrap_or(0);
+                        let lim = Duration::from_millis(ms.parse().unwrap_or(200));
+                        match run_to(t, site, lim) {
+                            Ok(()) => emit(&format!("ok {tid} probe {site}")),
+                            Err(h) => emit(&format!("timeout {tid} probe {site} last={h}")),
                         }
                     }
                     [tid, "free"] => {
